@@ -70,7 +70,7 @@ def row_kind(src, row):
 class Check(Prop):
     ID = "C04"
     RULE = ("cases = (source bytes, mode in {--suggest,--hover,--define}, --row=N with N from 0 to lines+2); enumerated: a fixed corpus "
-            "subset x all three modes x rows {0,1,middle,last,last+1,last+2}; generated: corpus programs, their line/token prefixes and "
+            "subset x all three modes x rows {0,1,middle,last,last+1,last+2}, every row of small programs with safe navigation on nil/unknown receivers, one query per program of the shipped-call sweep (every configured method x 15 argument lists; thorough: every row); generated: complete grammar-generated programs, calls of shipped configured methods, corpus programs, their line/token prefixes and "
             "token mutants, cyclic class/module hierarchies and value cycles x mode x row (rows drawn over the whole range, row kinds labelled: row<=0, blank, comment, mid-expression, code, "
             "past-eof). Oracle: no panic/fatal error/non-zero exit, no believed watchdog timeout, and every stdout line is a well-formed "
             "%.../@.../$... record or a diagnostic line of the target file. Non-trivial = row inside the file holding >= 1 token; "
@@ -106,6 +106,19 @@ class Check(Prop):
             for mode in MODES:
                 for row in range(1, s.count("\n") + 2):
                     yield {"src": s, "mode": mode, "row": row, "origin": "enum:ring"}
+        # safe navigation and other calls whose method or receiver resolves to nothing, on the queried row
+        for s in ["x = nil\nx&.foo\n", "x = nil\ny = x&.to_s\ny.\n", "a = true ? nil : 1\na&.abs\na&.nope\n", "nil&.to_s\n", "q&.r\n",
+                  "def f(a)\n  a&.size\nend\nf(nil)\n", "x = nil\nx.foo\nx&.foo.bar\n"]:
+            for mode in MODES:
+                for row in range(0, s.count("\n") + 2):
+                    yield {"src": s, "mode": mode, "row": row, "origin": "enum:safe-nav"}
+        # one query per program of the shipped-call sweep (every configured method x 15 argument lists); thorough: every row
+        from .. import shipped
+        for i, src in enumerate(shipped.enumerated_programs(self.repo, per_program=12)):
+            nl = src.count("\n")
+            rows = range(1, nl + 1) if self.tier == "thorough" else [(i * 7) % nl + 1]
+            for row in rows:
+                yield {"src": src, "mode": MODES[(i + row) % len(MODES)], "row": row, "origin": "enum:shipped-calls"}
         for s in ["x.", "x.\n", "[1].", "\"Abc\".", "A.new.", "class A\nend\nA.", "", "\n", "1.\n2.", "def a\nend\na.", "@a.", "$a.", "x = nil\nx."]:
             for mode in MODES:
                 for row in (0, 1, 2, 3):
@@ -116,8 +129,15 @@ class Check(Prop):
 
         @st.composite
         def case(draw):
-            kind = draw(st.integers(0, 12))
-            if kind >= 10:
+            kind = draw(st.integers(0, 16))
+            if kind >= 15:
+                from .. import shipped
+                src = draw(shipped.strategy(self.repo))
+            elif kind >= 13:
+                # complete generated programs (safe navigation, blocks, case/in, classes): the cursor may sit on any of their rows
+                from .. import rb
+                src = rb.render(draw(rb.program(max_stmts=8, case_in=True, rich=True))["tree"])
+            elif kind >= 10:
                 # cyclic hierarchies (superclass / include / extend rings) followed by calls: the ancestor walks of the query modes
                 from .c02 import cyclic, value_cycles
                 src = draw(st.one_of(cyclic(), cyclic(), value_cycles()))
